@@ -74,7 +74,7 @@ Theorem C07_mesh_rank3_mistiles :
               [("polarization"%string, PArr [3]); ("mesh"%string, PArr [2; 4; 3; 3])] (PArr [3]) (PArr [3]) (PArr [4])
   = DOk [("polarization"%string, VArr [1; 3]); ("mesh"%string, VArr [2; 4; 3; 3]); ("observers"%string, VArr [1; 3]);
          ("position"%string, VArr [1; 3]); ("orientation"%string, VArr [1; 4])].
-Proof. exact mesh_rank3_refuted. Qed.
+Proof. exact mesh_rank3_mistiles. Qed.
 Print Assumptions C07_mesh_rank3_mistiles.
 
 (* Collection.getX with star-inputs: which side the collection takes *)
